@@ -101,8 +101,10 @@ contract(
             f"implies({SAT}, forall(n, 0, {N}, feq({T}[n], {T0}[n])))",
         ]),
     },
+    gen="constrain_ages",
+    spec_src={"isleast": "lambda env, y, x: bool(y == max(x + env['epsilon'], np.nextafter(x, np.inf)))"},
     ghost_decl={"wit": ("int", [N])},
-    ghost_after=[("nodes_time[p] = max(", "wit[p] = e")],
+    ghost_after=[("nodes_time[p] = ", "wit[p] = e")],
     notes="A-LS-FINITE: the least-squares sweeps (max_iterations > 0) are assumed not to overflow; "
           "the forced pass is proved for finite outputs (a parent time of +inf is the only excluded case).",
 )
